@@ -144,6 +144,14 @@ struct Runner
     void prefix(Rng& r, uint64_t& vseq)
     {
         long h = 0;
+        if (cfg.cap >= 64)
+        {
+            // a large population that expires all at once (batching / chunking code paths)
+            for (int k = 0; k < uni; ++k)
+                box->insert(k, static_cast<uint64_t>(k + 1) * 1000000ull + (vseq++) + 1, bx::A_BOTH, 3);
+            vt::set(vt::now() + 6'000'000);
+            return;
+        }
         for (int k = 0; k < uni; ++k)
             if (r.in(4) != 0)
                 box->insert(k, static_cast<uint64_t>(k + 1) * 1000000ull + (vseq++) + 1, bx::A_BOTH, r.in(2) ? 3 : 1000);
@@ -207,6 +215,8 @@ int main(int argc, char** argv)
     }
     vt::reset(seed);
     cfg.seed = seed;
+    if (cfg.cap >= 64)
+        cfg.ttl_ms = 3;
     auto   box = bx::make_box(cfg);
     Runner R{cfg, caps, static_cast<int>(cfg.cap) + 2, box.get()};
     Rng      r0(seed);
